@@ -107,7 +107,7 @@ def _listen_table():
 
 PROBE_REQ = b'GET / HTTP/1.1\r\nHost: c19\r\n\r\n'
 
-def _probe(family, addr, timeout=4.0):
+def _probe(family, addr, timeout=25.0):
     import socket
     s = socket.socket(family, socket.SOCK_STREAM)
     s.settimeout(timeout)
@@ -338,7 +338,7 @@ def worker_main():
             continue
         case = json.loads(line)
         signal.signal(signal.SIGALRM, on_alarm)
-        signal.alarm(45)
+        signal.alarm(150)
         try:
             attempt = 0
             while True:
@@ -350,7 +350,7 @@ def worker_main():
                 out['attempts'] = attempt
                 break
         except _CaseTimeout:
-            out = {'worker_error': 'case timed out after 45 s'}
+            out = {'worker_error': 'case timed out after 150 s'}
         except BaseException as e:
             import traceback
             out = {'worker_error': '%s: %s' % (type(e).__name__, e), 'tb': traceback.format_exc()[-1500:]}
@@ -398,10 +398,10 @@ class Worker:
     def run(self, case):
         c = {k: v for k, v in case.items() if k != 'origin'}
         self.p.stdin.write(json.dumps(c) + '\n'); self.p.stdin.flush()
-        r, _, _ = select.select([self.p.stdout], [], [], 150)
+        r, _, _ = select.select([self.p.stdout], [], [], 400)
         if not r:
             self.kill()
-            raise RuntimeError('worker did not answer within 150 s')
+            raise RuntimeError('worker did not answer within 400 s')
         line = self.p.stdout.readline()
         if not line:
             self.kill()
@@ -539,11 +539,16 @@ def oracle(case, out):
     cfg = out['cfg']
     if case.get('expect_fail'):
         return None     # outside the property (its premise is a successful start-up); only compared with the model
-    if 'setup_err' in out:
-        return 'start-up failed: %s' % out['setup_err_text']
     unix = cfg['unix']
     hosts = dedupe([cfg['hostname']] + cfg['hostnames'])
     tports = ([] if unix else [cfg['port']]) + cfg['ports']
+    fixed = [x for x in tports if x != 0]
+    if len(set(fixed)) != len(fixed) or (0 in tports and len(hosts) > 1):
+        # outside the property's domain: the same fixed port twice on one address cannot be bound, and an
+        # OS-assigned port with several addresses is excluded by the quantifier (see C19_restriction_needed)
+        return None
+    if 'setup_err' in out:
+        return 'start-up failed: %s' % out['setup_err_text']
     ltcp = [tuple(x) for x in out['listen_tcp']]
     # os_spec on this run: what a listener believes (_port) is what the kernel says (getsockname), fixed requests honoured
     for l in out['pool']:
